@@ -144,6 +144,10 @@ def infeasible_edges(cfg, assume):
         def atomize(e, fixed=fixed):
             v = assume(e)
             if v is None:
+                from .cfg import static_truth, POSIX_CONSTS
+                if not isinstance(e, ast.Constant):
+                    v = static_truth(e, cfg.consts or POSIX_CONSTS)
+            if v is None:
                 return None
             name = '#' + astq.norm_text(e)
             fixed[name] = v
